@@ -8,7 +8,7 @@ from vf.harness import Check
 from vf.gen import lens as GL
 from vf.gen.build import build, used_optic
 from vf.gen import samples as GS
-from vf.gen.edit import edit_strategy, apply_edit
+from vf.gen.edit import edit_strategy, apply_edit, maybe_reload
 
 
 def _f(x):
@@ -67,6 +67,7 @@ class C04(Check):
         ed = case.get('edit')
         if ed:
             # history on one Optic: query everything, edit through the public setters, query everything again
+            o = maybe_reload(o, ed)
             spec2 = apply_edit(o, spec, ed)
             if spec2 is not None:
                 out.cls('requeried_after_' + ed['kind'] + '_edit')
